@@ -11,7 +11,7 @@ import math
 import numpy as np
 
 from mc import choice, vjoblib
-from mc.util import rng_for
+from mc.util import rng_for, fingerprint
 
 PROPERTY = 'C19'
 LEVEL = 'model_checking'
@@ -57,6 +57,13 @@ def shards(tier, seed):
                 if n_centres > 5 and ev != 'ints-unbalanced' and method == 'correlation':
                     continue
                 out.append({'kind': 'rdms', 'n_centres': n_centres, 'method': method, 'events': ev})
+    # data in other units (volts, raw scanner units) and six-digit condition codes
+    for method in ('euclidean', 'correlation'):
+        for n_centres in (5, 1001):
+            for scale in (1e-5, 1e4):
+                out.append({'kind': 'rdms', 'n_centres': n_centres, 'method': method, 'events': 'ints-unbalanced',
+                            'scale': scale})
+            out.append({'kind': 'rdms', 'n_centres': n_centres, 'method': method, 'events': 'big-ids'})
     for n_tasks in ([1, 2, 3, 4] + ([5] if tier == 'thorough' else [])):
         for n_jobs in (1, 2, 3):
             out.append({'kind': 'schedules', 'n_tasks': n_tasks, 'n_jobs': n_jobs})
@@ -94,7 +101,10 @@ def judge_volume(ctx, case, mask, radius, threshold):
             want_nb.append(sorted(lin(shape, v) for v in nb))
     klass = 'no-centre-qualifies' if not want_centers else 'some-centres'
     with ctx.guard('%s|%s' % (sig, klass), case):
+        mask_before = mask.copy()
         centers, neighbors = get_volume_searchlight(mask, radius=radius, threshold=threshold)
+        if not np.array_equal(mask, mask_before) or mask.dtype != mask_before.dtype:
+            ctx.fail(sig + '|modifies-argument', case, 'the mask was changed by the call')
         centers = [int(v) for v in np.asarray(centers).ravel()]
         if centers != want_centers:
             ctx.fail(sig + '|accepted-centres', case, 'centres %r, brute force %r' % (centers, want_centers))
@@ -174,18 +184,25 @@ def judge_rdms(ctx, case, seed):
     from rsatoolbox.rdm import calc_rdm
     n_centres, method = case['n_centres'], case['method']
     events = {'ints-unbalanced': [3, 1, 2, 1, 3, 3, 2], 'strings': ['b', 'a', 'c', 'a', 'b', 'c', 'a'],
-              'two-conds': [1, 0, 1, 0, 0, 1, 1]}[case['events']]
+              'two-conds': [1, 0, 1, 0, 0, 1, 1],
+              'big-ids': [100003, 100001, 100002, 100001, 100003, 100003, 100002]}[case['events']]
+    scale = float(case.get('scale', 1.0))
     n_obs = len(events)
     V = max(n_centres + 10, 40)
     g = rng_for(seed, 'c19data', n_centres)
-    data = np.round(g.normal(size=(n_obs, V)), 3) + np.arange(V)[None, :] * 0.01
+    data = (np.round(g.normal(size=(n_obs, V)), 3) + np.arange(V)[None, :] * 0.01) * scale
+    unit = scale ** 2 if method == 'euclidean' else 1.0      # size of a typical dissimilarity
     centers = np.array([(7 * i + 3) % V for i in range(n_centres)]) if n_centres <= V else np.arange(n_centres)
     centers = np.arange(n_centres) + 2
     neighbors = [np.array([c, (c + 1) % V, (c + 5) % V, (c * 3 + 1) % V]) for c in centers]
     neighbors = [np.array(sorted(set(nb.tolist()))) for nb in neighbors]
     sig = 'get_searchlight_RDMs|%s' % ('chunked' if n_centres > 1000 else 'unchunked')
     with ctx.guard(sig, case):
-        sl = get_searchlight_RDMs(data, centers, neighbors, np.array(events), method=method, verbose=False)
+        ev_arr = np.array(events)
+        before = fingerprint([data, centers, neighbors, ev_arr])
+        sl = get_searchlight_RDMs(data, centers, neighbors, ev_arr, method=method, verbose=False)
+        if fingerprint([data, centers, neighbors, ev_arr]) != before:
+            ctx.fail(sig + '|modifies-argument', case, 'data / centres / neighbours / events changed by the call')
         if sl.n_rdm != n_centres:
             ctx.fail(sig + '|one-rdm-per-centre', case, '%d RDMs for %d centres' % (sl.n_rdm, n_centres))
             return
@@ -198,13 +215,13 @@ def judge_rdms(ctx, case, seed):
             cols = data[:, neighbors[i]]
             want = ref_rdm(cols.tolist(), events, method)
             got = sl.dissimilarities[i]
-            if len(got) != len(want) or any(abs(a - b) > 1e-9 * max(1, abs(b)) for a, b in zip(got, want)):
+            if len(got) != len(want) or any(not abs(a - b) <= 1e-9 * max(unit, abs(b)) for a, b in zip(got, want)):
                 ctx.fail(sig + '|value-mismatch', dict(case, centre_no=i),
                          'RDM %d: %r, direct computation on its columns %r' % (i, list(np.round(got, 6)), list(np.round(want, 6))))
                 break
             direct = calc_rdm(Dataset(cols, obs_descriptors={'events': np.array(events)}), method=method,
                               descriptor='events').dissimilarities[0]
-            if not np.allclose(direct, got, rtol=1e-12, atol=1e-12):
+            if not np.allclose(direct, got, rtol=1e-12, atol=1e-12 * unit):
                 ctx.fail(sig + '|differs-from-calc_rdm', dict(case, centre_no=i), '%r vs %r' % (got, direct))
                 break
         ctx.outcome(tuple(np.round(sl.dissimilarities[0], 6)))
